@@ -11,21 +11,10 @@ from sa.core import AnalysisError, Repo, Report, call_name, unparse, walk_no_nes
 from sa.selftest import Edit, Variant
 from sa.typestate import ALL, CacheTypestate
 
-EXPLANATION = (
-    "Typestate analysis of SVG.elements (N empty / P populated-clean / D populated-dirty, plus an obligation bit for 'tree written while "
-    "cache populated'): every public method of class SVG is abstractly interpreted from all three entry states, with calls to other methods "
-    "of self inlined in the caller's state, events classified by resolved callee and def-use provenance (cache-derived shapes), and the rules "
-    "TS1 no tree read/write in D, TS2 no reset in D, TS3 a tree write in P obliges a reset/flush before normal exit, lost edits on shapes no "
-    "longer cached. Contracts of the primitives (_update_etree swaps every entry after clearing the memo and ends in a reset; _clone flushes "
-    "and deep-copies the root; toetree flushes and returns a deep copy). RET: every method with an `inplace` parameter returns self on every "
-    "normal path of the in-place branch and, in the copying branch, the clone on which it invoked the same method in place with every other "
-    "parameter forwarded, without writing to self."
-)
-ASSUMPTIONS = [
-    "a consumer does not interleave other operations on the same object while iterating a traversal generator",
-    "xpath/xpath_one/resolve_url are pure queries returning live nodes (they do not alter the document); frozen exemption",
-    "equality of to_element(from_element(x)) with x (serialisation fidelity of the dataclasses) is a value-level question, not decided",
-]
+from sa.texts import T as _T
+
+EXPLANATION = _T["C15"]["explanation"] + " Not decided: " + _T["C15"]["not_decided"] + "."
+ASSUMPTIONS = _T["C15"]["assumptions"]
 P = "C15"
 PURE_QUERIES = {
     "xpath": "pure query: returns live nodes, does not alter the document (reads the tree even when the cache is dirty)",
